@@ -170,9 +170,12 @@ struct app {
         return o;
     }
 
-    // run `f` from inside a handler so that an inline completion is observable
+    // run `f` from inside a handler so that an inline completion is observable.  With run_now the call is made
+    // at once, AHEAD of handlers that are already queued (e.g. cancel() before a queued write completion runs).
+    bool run_now = false;
     template <class F>
     void in_handler(F f) {
+        if (run_now) { run_now = false; try { f(); } catch (const std::exception& e) { jev("exception").str("what", e.what()); aborted = true; } return; }
         bool ran = false;
         asio::post(ioc, [&] { f(); ran = true; });
         try { ioc.restart(); while (!ran && ioc.poll_one()) ++handlers_run; }
@@ -424,6 +427,7 @@ struct app {
     void exec(const json::object& s) {
         std::string op = jstrk(s, "op");
         bool nr = jint(s, "nr", 0) != 0;
+        run_now = jint(s, "now", 0) != 0;
         int id = (int) jint(s, "id", 0);
         auto& w = W();
         if (op == "cfg") configure(s);
